@@ -34,6 +34,13 @@ FORMS = {
     "flatten": "List->flatten(a)", "zip": "zip(a, b)",
     "enumerate": "enumerate(a)", "chunks": "chunks(a, n)",
     "pairs": "pairs(a)", "grouped": "List->grouped(a)",
+    "grouped_key": "List->grouped(a, key = fn(x) x[0])",
+    "grouped_cmp": "List->grouped(a, cmp = fn(x, y) compare(x[0], y[0]))",
+    "unique_key": "List->unique(a, key = fn(x) x[0])",
+    "filter_key2": "List->filter(a, fn(k) k > 1, key = fn(x) x[0])",
+    "min_key": "min(a, key = fn(x) x[0])[0]",
+    "max_key": "max(a, key = fn(x) x[0])[0]",
+    "min2_key": "min(a[0], a[-1], key = fn(x) x[0])[0]",
     "filter": "List->filter(a, fn(x) x is int)",
     "filter_key": "List->filter(a, fn(x) x > 1, key = fn(x) length(string(x)))",
     "map_list": "List->map_list(a, fn(x) [x])",
@@ -289,10 +296,36 @@ def check_stats(agg, ms):
                               core.show_raw(r), size=n)
 
 
+KEYED = [[1, "a"], [2, "b"], [2, "c"], [1, "d"], [3, "e"]]
+
+
+def check_keyed(agg, lst):
+    """the functions that take a key function, on lists of [key, tag]
+    pairs whose tags are all different"""
+    groups = [list(g) for _, g in itertools.groupby(lst,
+                                                    key=lambda x: x[0])]
+    want_strict(agg, "grouped_key", {"a": lst}, groups)
+    want_strict(agg, "grouped_cmp", {"a": lst}, groups)
+    seen, uniq = set(), []
+    for x in lst:
+        if x[0] not in seen:
+            seen.add(x[0])
+            uniq.append(x)
+    want_strict(agg, "unique_key", {"a": lst}, uniq)
+    want_strict(agg, "filter_key2", {"a": lst}, [x for x in lst if x[0] > 1])
+    if lst:
+        want_strict(agg, "min_key", {"a": lst}, min(x[0] for x in lst))
+        want_strict(agg, "max_key", {"a": lst}, max(x[0] for x in lst))
+        want_strict(agg, "min2_key", {"a": lst}, min(lst[0][0], lst[-1][0]))
+
+
 def explore_lists(chunk):
     agg = core.Agg()
     core.arm(3000)
     try:
+        for lst in chunk.get("keyed", []):
+            check_keyed(agg, lst)
+            agg.count("cases")
         for lst in chunk["lists"]:
             check_list(agg, lst)
             agg.count("cases")
@@ -485,6 +518,10 @@ def main(tier, seed):
     for c in core.chunked(nested, core.NPROC):
         jobs.append({"lists": [], "pairs": [], "multisets": [],
                      "nested": c})
+    keyed = [list(t) for n in range(0, 5 if tier == "quick" else 6)
+             for t in itertools.product(KEYED, repeat=n)]
+    for c in core.chunked(keyed, core.NPROC):
+        jobs.append({"lists": [], "pairs": [], "multisets": [], "keyed": c})
     agg = core.pmap(explore_lists, jobs)
     agg.merge(core.pmap(explore_ints, [
         {"ints": c, "ranges": r} for c, r in zip(
